@@ -65,7 +65,13 @@ class Model:
             if tier == 'thorough':
                 acts += ['E', 'NF', 'FALSE']
             for jid in sorted(vis):
-                acts += ['fg%d' % jid, 'bg%d' % jid, 'REL%d' % jid, 'STOP%d.0' % jid, 'KILL%d.0' % jid]
+                acts += ['fg%d' % jid, 'REL%d' % jid, 'STOP%d.0' % jid, 'KILL%d.0' % jid]
+                # `bg` of a job whose members end as soon as they are continued (gate already open, or an interrupt
+                # pending on a stopped member) is not explored: whether the poll that follows `bg` in the same command
+                # already sees the exit is a race between the shell and the dying process, and the job id given to
+                # the next job depends on it - the statement does not fix either outcome
+                if not vis[jid]['gate_open'] and not vis[jid]['pending_int']:
+                    acts.append('bg%d' % jid)
                 if tier == 'thorough':
                     acts += ['CONT%d.0' % jid]
                     if vis[jid]['n'] > 1:
@@ -379,6 +385,7 @@ def run(rep, tier):
                 'non-trivial = sequence that creates at least one job; distinct = distinct action sequence' % depth)
     rep.assumptions = [
         'every stage is the helper vh-wait (blocks until its gate file exists): finishing a job is an explorer action; signal delivery is serialised (each action settles before the next) — simultaneous arrivals are covered by C06',
+        '`bg` is not applied to a job whose members would end the moment they are continued (released gate or pending interrupt): the poll inside the same command races with their exit',
         '`fg` / `bg` are always given an explicit job id (without an id cicada picks a job by hash-map order, which the statement does not fix)',
         'each predicted condition is awaited for at most 5 s with 5 ms polling; a condition that is not reached is the violation',
         'explicit-state layer: model states are merged by their canonical form (jobs with member states, gate, pending interrupts, foreground job); shell-internal state that differs between two paths to the same model state is only covered by the sequence layer',
